@@ -9,6 +9,7 @@ import (
 	"bufio"
 	"bytes"
 	"io"
+	"os"
 	"testing/iotest"
 )
 
@@ -35,6 +36,31 @@ func sinkKinds() []sinkKind {
 			var b bytes.Buffer
 			err := f(&b)
 			return b.Bytes(), err
+		}},
+		{"bytes.Buffer that already holds data", func(f func(io.Writer) error) ([]byte, error) {
+			// a frame header written first, a buffer reused without Reset: what the call writes comes after it
+			var b bytes.Buffer
+			b.WriteString("frame-header:")
+			n := b.Len()
+			err := f(&b)
+			return append([]byte{}, b.Bytes()[n:]...), err
+		}},
+		{"os.File", func(f func(io.Writer) error) ([]byte, error) {
+			fl, err := os.CreateTemp("", "vh-sink-*")
+			if err != nil {
+				return nil, err
+			}
+			defer os.Remove(fl.Name())
+			defer fl.Close()
+			fl.WriteString("0123")
+			if err := f(fl); err != nil {
+				return nil, err
+			}
+			all, err := os.ReadFile(fl.Name())
+			if err != nil || len(all) < 4 {
+				return nil, err
+			}
+			return all[4:], nil
 		}},
 		{"write-only", func(f func(io.Writer) error) ([]byte, error) {
 			var b bytes.Buffer
